@@ -1375,8 +1375,13 @@ class Generator:
 
         def edit_then_drop(sid):
             def go(ex2):
+                # a caller that edits what it got before letting go: always when the simulator sees (white-box seam,
+                # section 2.6) that a part of the result IS library state - e.g. the one call that promotes its result
+                # into a memo - otherwise for one result in eight
                 m = ex2.meta.get(sid)
-                cands = [(path, kind, hint) for path, kind, al, hint in (m["subs"] if m else []) if kind != "tuple"]
+                subs = [(path, kind, hint, al) for path, kind, al, hint in (m["subs"] if m else []) if kind != "tuple"]
+                shared = [x[:3] for x in subs if x[3]]
+                cands = shared or ([x[:3] for x in subs] if self.rng.random() < 0.12 else [])
                 out = []
                 if cands:
                     path, kind, hint = self.rng.choice(cands)
@@ -1403,14 +1408,19 @@ class Generator:
                 again["id"] = self._id()
                 out.append(again)
                 if k < N - 1:
-                    if r.random() < 0.12:
-                        out.append(edit_then_drop(again["id"]))     # a caller that edits what it got before letting go
-                    else:
-                        out.append(drop(again["id"]))
+                    out.append(edit_then_drop(again["id"]))
                 if k in nb_at:
                     out += self._neighbour_calls(call)
                 last = again
-            return out + [self._after_call(last, rounds=2)]
+            def others_on_same_objects(ex2):
+                # other requests about the very objects that were hammered (same stabilizer: its readout circuit, its
+                # class, ...): a memo keyed coarser than one function's arguments shows on these
+                q = []
+                for A in call.get("args", [])[:2]:
+                    if "ref" in A and not A.get("path") and A["ref"] in ex2.meta:
+                        q += self.gen_consumers(ex2, A["ref"], 4)
+                return q
+            return out + [others_on_same_objects, self._after_call(last, rounds=2)]
 
         def many(ex):
             first = []
